@@ -346,6 +346,12 @@ def check_auth_result(ctx, what, out, expected, pw):
         ctx.label("short:" + (kind if kind != "ok" else "returned-%r" % val))
         return
     if kind == "other":
+        if expected is True:
+            # "returns true exactly when the tag holds the key": for the
+            # right password of a documented type an exception is not true
+            # (for a wrong one it is C16's matter)
+            raise Violation("right-key-raises", "%s(%r) raised %r although "
+                            "the tag holds that key" % (what, pw, val))
         return
     if kind != "ok":
         raise Violation("auth-error-without-interference",
